@@ -337,6 +337,9 @@ def encode_and_roundtrip(R, ctx, bound):
             ('(ii) Python decode of its own encoding does not raise', orr(dec_raise), reach_dec),
             ('(ii) Python decode(encode(call)) == call (allele_pair_sqrt through its contract)', orr(dec_diff), reach_dec),
         ]
+        if ploidy == 2 and bound > (1 << 24):
+            # the full-range query is the hardest of the check; the same obligation on repr < 2^24 is kept as a fallback claim
+            qs.append(('(ii) Python decode(encode(call)) == call, restricted to repr < 2^24', z3.And(orr(dec_diff), rep < (1 << 24)), reach_dec))
         for label, vio, rch in qs:
             name = f'ploidy {ploidy}, phased symbolic, repr < 2^{bound.bit_length() - 1}: {label}'
             if z3.is_false(z3.simplify(vio)):
